@@ -30,6 +30,21 @@ fn trig(i: usize) -> Trigger {
 }
 
 /// shape bits: 1 = plain setters, 2 = performance interrupt, 4 = maintenance interrupt, 8 = apply everything in reverse order
+/// size of the Default-derived structure selected by a K_DEFAULT shape
+pub fn default_len(shape: u16) -> usize {
+    use core::mem::size_of;
+    match shape % 9 {
+        0 => size_of::<Gicr>(),
+        1 => size_of::<ProcessorLocalApic>(),
+        2 => size_of::<IoApic>(),
+        3 => size_of::<Gicc>(),
+        4 => size_of::<Gicd>(),
+        5 => size_of::<GicMsi>(),
+        6 => size_of::<GicIts>(),
+        7 => size_of::<RINTC>(),
+        _ => size_of::<IMSIC>(),
+    }
+}
 pub fn real_gicc(f: &Fill, shape: u16) -> Gicc {
     let mut g = Gicc::new(status(f.e(0, 3)));
     let mut steps: Vec<u8> = vec![];
@@ -147,7 +162,7 @@ pub fn ref_entry(w: &mut W, op: &Op) {
             w.u8(0x1a).u8(36).u8(1).u8(f.u8(0)).u32(0).b(&f.arr::<8>(1)).u16(f.u16(2)).u16(f.u16(6)).u32(f.u32(3)).u64(f.u64(4)).u32(f.u32(5));
         }
         K_DEFAULT => {
-            w.z(16);
+            w.z(default_len(op.shape));
         }
         K_PLIC => {
             // type 0x1B, 36, version 1, id, hw id(8), sources(2), max priority(2), flags(4)=0, size(4), address(8), GSI base(4)
@@ -186,7 +201,17 @@ pub fn apply(t: &mut MADT, op: &Op) {
         K_IMSIC_ONCE => t.add_imsic(real_imsic(f)),
         K_IMSIC => t.add_structure(real_imsic(f)),
         K_APLIC => t.add_structure(APLIC::new(f.u8(0), f.arr::<8>(1), f.u16(2), f.u32(3), f.u64(4), f.u32(5), f.u16(6))),
-        K_DEFAULT => t.add_structure(Gicr::default()),
+        K_DEFAULT => match op.shape % 9 {
+            0 => t.add_structure(Gicr::default()),
+            1 => t.add_structure(ProcessorLocalApic::default()),
+            2 => t.add_structure(IoApic::default()),
+            3 => t.add_structure(Gicc::default()),
+            4 => t.add_structure(Gicd::default()),
+            5 => t.add_structure(GicMsi::default()),
+            6 => t.add_structure(GicIts::default()),
+            7 => t.add_structure(RINTC::default()),
+            _ => t.add_structure(IMSIC::default()),
+        },
         K_PLIC => t.add_structure(PLIC::new(f.u8(0), f.arr::<8>(1), f.u16(2), f.u16(3), f.u32(4), f.u64(5), f.u32(6))),
         _ => unreachable!(),
     }
@@ -255,8 +280,11 @@ impl Table for Madt {
                 v.push(Op::new(k, shape, *f));
             }
         }
+        // structures obtained through the derived Default (all-zero bytes of the structure's size), one per history
         if level >= 1 && !hist.iter().any(|o| o.k == K_DEFAULT) {
-            v.push(Op::new(K_DEFAULT, 0, 0));
+            for sh in 0..9u16 {
+                v.push(Op::new(K_DEFAULT, sh, 0));
+            }
         }
         v
     }
@@ -318,6 +346,7 @@ impl Table for Madt {
         match k {
             K_GICC => vec![7, 0, 1, 2, 4, 3, 5, 6, 15, 11, 23, 31],
             K_GICMSI => vec![1, 0],
+            K_DEFAULT => (0..9).collect(),
             _ => vec![0],
         }
     }
